@@ -49,7 +49,7 @@ from .c01 import bounded_cuts
 PROPERTY = "C06"
 LEVEL = "exploration"
 RULE = (
-    "per run: one serializer-matrix entry (116 configurations, 13 families), debug option on/off for every layer, a configured limit from {256, 64, 1024, 4096, 16384, 65536} where the "
+    "per run: one serializer-matrix entry (122 configurations, 13 families), debug option on/off for every layer, a configured limit from {256, 64, 1024, 4096, 16384, 65536} where the "
     "serializer has one, one input of class {valid traffic + in-flight corruption (bitflip, truncate/remove span, dup_bytes, splice with another "
     "stream or garbage), crafted per-family corruption (invalid UTF-8, base64 padding/alphabet/checksum, compressed block/trailer/header, hostile "
     "pickle opcodes, wrong-shape DTO), structurally extreme input up to the limit (nesting, digit strings, backslash runs, long tokens, whitespace "
